@@ -3,6 +3,8 @@
 (* the events, the two state sets, the expected resolved state and the expected intermediate stages.        *)
 EXTENDS Room, Json
 
+CONSTANT Triples   \* also emit queries with three state sets
+
 
 EvJson(i) == [id |-> i, type |-> E[i].type, sender |-> E[i].sender, skey |-> E[i].skey, membership |-> E[i].membership,
               plu |-> E[i].plu, jr |-> E[i].jr, prev |-> E[i].prev, auth |-> E[i].auth, depth |-> E[i].depth,
@@ -13,25 +15,37 @@ RejectCandidates == {x \in DOMAIN E : x > Base /\ \E y \in DOMAIN E : x \in E[y]
 
 WithRejected(rej) == [i \in DOMAIN E |-> [E[i] EXCEPT !.rejected = (i \in rej)]]
 
-Query(a, b, rej) ==
-    LET Sets == <<after[a], after[b]>>
+Query(tips, rej) ==
+    LET Sets == [k \in DOMAIN tips |-> after[tips[k]]]
         ER == WithRejected(rej) IN
     IF StateRes(Ver) = "v1"
-    THEN [ver |-> Ver, events |-> [i \in DOMAIN E |-> EvJson(i)], sets |-> Sets, tips |-> <<a, b>>, rejected |-> rej,
+    THEN [ver |-> Ver, events |-> [i \in DOMAIN E |-> EvJson(i)], sets |-> Sets, tips |-> tips, rejected |-> rej,
           result |-> ResultV1(ER, Ver, Sets), unconflicted |-> UnconflictedV1(ER, Sets), power |-> <<>>, others |-> <<>>,
           authdiff |-> {}, subgraph |-> {}]
     ELSE LET st == StagesV2(ER, Ver, Sets) IN
-         [ver |-> Ver, events |-> [i \in DOMAIN E |-> EvJson(i)], sets |-> Sets, tips |-> <<a, b>>, rejected |-> rej,
+         [ver |-> Ver, events |-> [i \in DOMAIN E |-> EvJson(i)], sets |-> Sets, tips |-> tips, rejected |-> rej,
           result |-> st.result, unconflicted |-> st.unconflicted, power |-> st.power, others |-> st.others,
           authdiff |-> st.authdiff, subgraph |-> st.subgraph]
 
-\* one evaluation of the stages per fork pair (and per rejected-event oracle): check the definition's
-\* properties and emit the query
-QueryOK(a, b, rej) ==
-    LET q == Query(a, b, rej) IN PairOK(a, b, q.result) /\ PrintT(ToJson(q))
+\* one evaluation of the stages per query: check the definition's properties and emit the query
+QueryOK(tips, rej) ==
+    LET q == Query(tips, rej) IN
+    /\ WellFormedR(E, q.sets, q.result)
+    /\ (Len(tips) = 2 => PairOK(tips[1], tips[2], q.result))
+    /\ PrintT(ToJson(q))
+
+\* three state sets: the newest event, an event it is incomparable with, and any third event that is not an
+\* ancestor of both (state sets need not sit on three different branches: a branch may contribute an earlier
+\* and a later state)
+ForkTriples ==
+    {t \in (DOMAIN E) \X (DOMAIN E) \X (DOMAIN E) :
+        /\ t[3] = last /\ t[1] < t[2] /\ t[2] < t[3] /\ t[1] >= ForkFrom
+        /\ (Incomparable(E, t[2], t[3]) \/ Incomparable(E, t[1], t[3]))
+        /\ after[t[1]] # after[t[2]]}
 
 Emit == /\ HistoryNoEsc
         /\ \A p \in ForkPairs :
-              /\ QueryOK(p[1], p[2], {})
-              /\ (StateRes(Ver) # "v1" => \A x \in RejectCandidates : QueryOK(p[1], p[2], {x}))
+              /\ QueryOK(p, {})
+              /\ (StateRes(Ver) # "v1" => \A x \in RejectCandidates : QueryOK(p, {x}))
+        /\ (Triples => \A t \in ForkTriples : QueryOK(<<t[2], t[1], t[3]>>, {}))
 =============================================================================
